@@ -44,6 +44,17 @@ def c06_r1(ctx):
     loops = [lp for lp in ast.walk(wp.node) if isinstance(lp, ast.For) and A.eq(lp.iter, "reader.iter_docs()")]
     if len(loops) == 1 and isinstance(loops[0].target, ast.Tuple) and isinstance(loops[0].target.elts[0], ast.Name):
         A.eq(loops[0].target.elts[0], "docnum")
+    # positions in source order of the (possibly inlined) tree: line numbers of inlined helper bodies are not comparable
+    seqno = {}
+
+    def _number(n_):
+        seqno[id(n_)] = len(seqno)
+        for ch in ast.iter_child_nodes(n_):
+            _number(ch)
+    _number(wp.node)
+
+    def pos(n_):
+        return seqno.get(id(n_), 10 ** 9)
     # a local holding the current number (`newdoc = self.docnum` at the top of the iteration) stands for it until the advance
     cur = {}
     an = norm.assigned_names(wp.node)
@@ -55,16 +66,16 @@ def c06_r1(ctx):
         return norm.canon(norm.substitute(e, cur)) if cur else norm.canon(e)
     for st in ast.walk(wp.node):
         if isinstance(st, ast.Assign) and isinstance(st.targets[0], ast.Subscript) and A.eq(st.targets[0], "docmap[docnum]"):
-            order.append(("map", cv(st.value), st.lineno))
+            order.append(("map", cv(st.value), pos(st)))
         if isinstance(st, ast.AugAssign) and norm.canon(st.target) == "self.docnum":
-            order.append(("inc", norm.canon(st.value), st.lineno))
+            order.append(("inc", norm.canon(st.value), pos(st)))
         if isinstance(st, ast.Assign) and any(norm.canon(t) == "self.docnum" for t in st.targets):
             v = cv(st.value)
-            order.append(("inc", "1", st.lineno) if v in ("(self.docnum + 1)", "(1 + self.docnum)") else ("set", v, st.lineno))
+            order.append(("inc", "1", pos(st)) if v in ("(self.docnum + 1)", "(1 + self.docnum)") else ("set", v, pos(st)))
         if isinstance(st, ast.Assign) and len(st.targets) == 1 and isinstance(st.targets[0], ast.Name) and st.targets[0].id in cur:
-            order.append(("cur", "", st.lineno))
+            order.append(("cur", "", pos(st)))
         if isinstance(st, ast.Call) and norm.call_name(st) == "start_doc":
-            order.append(("start", cv(st.args[0]) if st.args else "", st.lineno))
+            order.append(("start", cv(st.args[0]) if st.args else "", pos(st)))
     while order and sorted(order, key=lambda x: x[2])[0][0] == "cur":
         order.remove(sorted(order, key=lambda x: x[2])[0])
     order.sort(key=lambda x: x[2])
